@@ -172,6 +172,8 @@ func normJSON(v any) string {
 }
 
 func cmdRun(args []string) {
+	// the process's local time zone is not UTC (encoding and decoding must not depend on it)
+	time.Local = time.FixedZone("verif+2", 2*3600)
 	fs := flag.NewFlagSet("cmd-run", flag.ExitOnError)
 	outF := fs.String("out", "", "")
 	must(fs.Parse(args))
